@@ -320,7 +320,9 @@ def struct_decl(s: Struct, derives='', doc=False):
             if i % 6 == 3:
                 lines.append('    #[doc = concat!("documented field, ", "by a macro expression")]')
             elif i % 6 == 4:
-                lines.append('    #[doc = "documented by an attribute only"]')
+                if i % 12 == 4:
+                    lines.append('    #[doc = "documented by an attribute only"]')
+                # else: the only documentation of this field is written after its bit-range attribute (below)
             elif i % 6 == 5:
                 lines.append('    #[doc = stringify!(documented by another macro expression)]')
             else:
@@ -330,7 +332,15 @@ def struct_decl(s: Struct, derives='', doc=False):
                     lines.append("    /// second paragraph of the field's documentation, with `code` and a [link](https://example.org)")
                 elif i % 6 == 2:
                     lines.append('    #[doc = "documentation written as an attribute"]')
-        lines.append(f"    {field_text(f, i)},")
+        ft = field_text(f, i)
+        if (doc or f.doc) and i % 12 == 10 and ")] " in ft:
+            # the documentation may also be written between the field's attribute and its name
+            k = ft.index(")] ") + 2
+            lines.append(f"    {ft[:k]}")
+            lines.append("    /// a doc comment placed after the bit-range attribute")
+            lines.append(f"    {ft[k + 1:]},")
+        else:
+            lines.append(f"    {ft},")
     lines.append("}")
     txt = "\n".join(lines)
     derives = derives or getattr(s, "derives", "")
